@@ -30,6 +30,54 @@ def ref_eotf(x):
     return dpow(num / den, 1 / M1) * 10000
 
 
+def summary_sweep(res):
+    """every 12-bit code as source_min_pq and source_max_pq of one RPU each: `info --summary` prints the
+    luminance of every distinct pair, i.e. one line covers the whole code domain; compared with the
+    60-digit reference (minimum with 4 decimals, peak snapped to the nearest multiple of 1000 nits)"""
+    import re
+    from .. import rpugen as G, rpu as R, cli, rpucases as RC
+    r = C.rng(1, "c19-summary")
+    base = None
+    for _ in range(200):
+        t, meta = G.gen_tree(r, profile=8)
+        if t.get("vdr_dm_data") is None:
+            continue
+        x = G.encode(t).rstrip(b"\x00")
+        if x[:3] == bytes([0x19, 8, 9]) and C.dvh().run(["parseclass rpu " + (RC.SC4 + x).hex()])[0] == "ok":
+            base = t
+            break
+    if base is None:
+        raise RuntimeError("no valid base RPU for the summary sweep")
+    raws = []
+    for c in range(4096):
+        base["vdr_dm_data"]["source_min_pq"] = c
+        base["vdr_dm_data"]["source_max_pq"] = c
+        raws.append(G.encode(base).rstrip(b"\x00"))
+    w = cli.Work("c19")
+    inp = w.write("codes.bin", b"".join(b"\x00\x00\x00\x01" + R.escape(x) for x in raws))
+    ec, txt = cli.run(["info", "-i", inp, "-s"], w.dir)
+    m = re.search(r"RPU mastering display: ([^\n]*)", txt)
+    if ec != "0" or not m:
+        res.violation("info --summary on the 4096-code list exits %s" % ec, {"fn": "summary", "what": "no mastering display line", "output": txt[-300:]})
+        return 0
+    items = m.group(1).split(", ")
+    if len(items) != 4096:
+        res.violation("info --summary prints %d mastering display pairs for 4096 distinct ones" % len(items), {"fn": "summary", "what": "pair count", "printed": len(items)})
+        return 0
+    nbad = 0
+    for c, it in enumerate(items):
+        mm = re.fullmatch(r"([0-9.]+)/([0-9.]+) nits", it)
+        v = ref_eotf(Decimal(c) / 4095)
+        peak = int((v / 1000 + Decimal("0.5")).to_integral_value(rounding="ROUND_FLOOR")) * 1000
+        ok = mm is not None and abs(Decimal(mm.group(1)) - v) <= Decimal("0.00005") + Decimal("0.000001") and Decimal(mm.group(2)) == peak
+        if not ok:
+            nbad += 1
+            if nbad <= 3:
+                res.violation("info --summary prints `%s` for source PQ code %d: ST 2084 gives %.6f nits (minimum, 4 decimals) and a peak of %d nits (nearest multiple of 1000)" % (it, c, v, peak),
+                              {"fn": "summary", "code": c, "printed": it, "reference_nits": str(v), "reference_peak": peak})
+    return 4096
+
+
 def run(res):
     # the implementation's outputs over the whole finite domain become the tables Coq certifies
     rc, out = C.build_harness()
@@ -37,7 +85,7 @@ def run(res):
         raise RuntimeError(out[-2000:])
     nits, minl, rt, cn = pqgen.tables()
     pqgen.write_gen(nits, minl, rt, cn)
-    broken = C.prelude(res, need_model=False, tables=("Consts_gen", "PqUsers_gen"))
+    broken = C.prelude(res, need_model=False, need_dovi=True, tables=("Consts_gen", "PqUsers_gen"))
     if res.tier == "thorough":
         n2, m2, r2, c2 = pqgen.tables(release=True)
         if (n2, m2, r2, c2) != (nits, minl, rt, cn):
@@ -72,10 +120,12 @@ def run(res):
             res.violation("anchor %d nits -> %d, expected %d" % (a, nits[a], b), {"fn": "nits_to_pq", "nits": a, "impl_code": nits[a]})
     if any(nits[i] > nits[i + 1] for i in range(10000)) or any(minl[i] > minl[i + 1] for i in range(10000)):
         res.violation("nits_to_pq table is not monotonic", {"fn": "nits_to_pq", "what": "monotonicity"})
+    nsum = summary_sweep(res)
     res.coverage.update({
-        "evaluations": len(nits) + len(minl) + 2 * len(cn),
+        "summary_codes_checked": nsum,
+        "evaluations": len(nits) + len(minl) + 2 * len(cn) + nsum,
         "distinct_nontrivial": len(set(nits)) + len(set(minl)) + len(cn),
-        "rule": "the implementation evaluated on the whole domain of the property: integer nits 0..10000, k/10000 nits for k=0..10000, all 4096 codes (code->nits as exact f64 value, and code->nits->code); every entry certified in Coq by Interval (24194 obligations inside 32 shard lemmas) and re-checked with a 60-digit decimal evaluation for the replay; non-trivial = distinct table values",
+        "rule": "the implementation evaluated on the whole domain of the property: integer nits 0..10000, k/10000 nits for k=0..10000, all 4096 codes (code->nits as exact f64 value, and code->nits->code); every entry certified in Coq by Interval (24194 obligations inside 32 shard lemmas) and re-checked with a 60-digit decimal evaluation for the replay; `info --summary` on a list holding every 12-bit code as source min / max PQ (one mastering display pair per code, minimum and snapped peak compared with the reference); non-trivial = distinct table values",
         "exhaustive": True,
         "samples": [{"nits": 100, "code": nits[100]}, {"min_nits": "50/10000", "code": minl[50]}, {"code": 2081, "nits_f64": "%d/%d" % cn[2081], "roundtrip": rt[2081]}],
         "interval_entries": len(nits) + len(minl) + len(cn),
